@@ -254,6 +254,32 @@ def thread_stress(R):
         R.mon["thread_stress_ok"] += 1
 
 
+def long_lived(R):
+    """ONE client receives hundreds of error responses over its life (a poller and a
+    device that keeps refusing): number 450 surfaces exactly like number 1."""
+    for level in ("v2c", "v3-md5"):
+        w = World(level, DB)
+        w.prime()
+        st = {"status": 1}
+
+        def always(req, resp):
+            return {"type": 0xA2, "request_id": resp["request_id"], "error_status": st["status"], "error_index": 1, "varbinds": [(o, ("null", None)) for o, _ in req["varbinds"]]}
+
+        w.agent.pdu_hook = always
+        for j in range(450):
+            st["status"] = STATUSES[j % 18]
+            w.seam.reset(budget=6)
+            w.agent.requests.clear()
+            res = rig.outcome(lambda: drive(w.client.get(OID(KEYS[0]))) if j % 3 else drive(w.client.multiget([OID(KEYS[0]), OID(KEYS[1])])))
+            R.evaluations += 1
+            ok = res[0] == "exc" and type(res[1]) is CLASSES[st["status"]] and oid_t(res[1].offending_oid) == KEYS[0]
+            if not ok:
+                R.violation({"level": level, "op": "long-lived", "status": st["status"], "index": 1, "nvb": None, "when": j, "nreq": 1}, "error response number %d on one client (status %d) surfaced as %r" % (j + 1, st["status"], res[1]), None)
+                break
+        else:
+            R.mon["long_lived_clients_ok"] += 1
+
+
 def matrix():
     """Yield (op, status, index, nvb, when, nreq)."""
     for op in SINGLE_OPS:
@@ -285,6 +311,8 @@ def matrix():
 def run(R):
     full = R.tier == "thorough"
     thread_stress(R)  # in every shard, before this process has seen any error response
+    if R.shard == 1 % R.nshards:
+        long_lived(R)
     cases = list(matrix())
     R.notes["matrix_size_per_level"] = len(cases)
     k = 0
@@ -328,5 +356,8 @@ def replay(R, v):
     c = v["case"]
     if c.get("op") == "threads":
         thread_stress(R)
+        return
+    if c.get("op") == "long-lived":
+        long_lived(R)
         return
     run_case(R, c["level"], c["op"], c["status"], c["index"], c["nvb"], c["when"], c.get("nreq", 1), reboot=c.get("reboot", False))
